@@ -16,7 +16,7 @@ RULE = ('Exhaustive: every string over {A,T,N,a} and over {A,C,G,T} up to length
         'prefix, rc(prefix), prefix+k-mer, its rc, runs of the prefix letters, IUPAC/N, lower case, arbitrary bytes 0..255 incl. bytes '
         'one bit from a nucleotide) with hits aligned flush to either end or one base short; k 1..32, prefix 1..6 nt incl. palindromic '
         'and self-overlapping ones; every case run for bytes/bytearray/Bio.Seq/str(ASCII only) inputs, bare and in a list, with the '
-        'set, dense (k<=10; k 11-12 sampled) and default accumulators. Oracle R-KMER: literal scan of each strand (reverse complement '
+        'set, dense (k<=10; k 11-12 sampled) and default accumulators; in 3 of 5 cases preceded by calls that fail part-way (wrong-typed / non-ASCII later sequence), which must leave no trace. Oracle R-KMER: literal scan of each strand (reverse complement '
         'built explicitly), Python-int base-4 code; values, dtype and strict monotonicity compared. Non-trivial: expected signature '
         'non-empty; distinct by case hash (enumerated strings are distinct by construction).')
 ASSUMPTIONS = ['str inputs are ASCII (seq_to_bytes encodes str as ASCII; non-ASCII str is outside the accepted domain)',
@@ -102,12 +102,26 @@ def run_case(case, ctx):
 		variants = [('bytes', lambda s: s), ('bytearray', lambda s: bytearray(s)), ('Seq', lambda s: Seq(s))]
 		if ascii_ok:
 			variants.append(('str', lambda s: s.decode('ascii')))
+		def poison():
+			# a call that fails part-way (after k-mers were found) must leave no trace in later calls
+			if not case.get('poison'):
+				return
+			hit = pb + b'ACGT' * 8
+			bad = {'bad_type': 12345, 'non_ascii_str': 'AC\u00e9GT', 'none': None}[case['poison']]
+			for acc in (None, SetAccumulator(k)):
+				try:
+					calc_signature(kspec, [hit, R.ref_revcomp(hit), bad], accumulator=acc)
+				except Exception:
+					pass
+		poison()
 		accs = [('set', lambda: SetAccumulator(k)), ('default', lambda: None)]
 		if k <= 10 or (k <= 12 and case.get('dense12')):
 			accs.append(('dense', lambda: ArrayAccumulator(k)))
 		for tname, conv in variants:
 			for aname, mk in accs:
 				what = f'{tname}/{aname}'
+				if aname == 'default':
+					poison()
 				got = _call(lambda: calc_signature(kspec, [conv(s) for s in seqs], accumulator=mk()), what, case)
 				_compare(np, got, exp, k, what, case)
 			if len(seqs) == 1:
@@ -148,6 +162,8 @@ def run_case(case, ctx):
 			classes.add('reverse_only_kmer')
 		classes.add('k:1-6' if k <= 6 else 'k:7-12' if k <= 12 else 'k:13-32')
 		classes.add(f'nseqs={min(len(seqs), 3)}')
+		if case.get('poison'):
+			classes.add('after_failed_call')
 		if ascii_ok:
 			classes.add('str_input')
 		return {'nontrivial': bool(exp), 'classes': sorted(classes)}
@@ -216,7 +232,8 @@ def seqs_case(draw, tier):
 
 	nseq = draw(st.sampled_from([1, 1, 2, 3, 4]))
 	seqs = [one_seq() for _ in range(nseq)]
-	return {'kind': 'seqs', 'k': k, 'prefix': prefix, 'seqs': seqs, 'dense12': draw(st.integers(0, 9)) == 9}
+	return {'kind': 'seqs', 'k': k, 'prefix': prefix, 'seqs': seqs, 'dense12': draw(st.integers(0, 9)) == 9,
+	        'poison': draw(st.sampled_from([None, None, 'bad_type', 'non_ascii_str', 'none']))}
 
 
 def strategy(tier):
